@@ -105,7 +105,7 @@ func (i *Interceptors) NewSegment(val string) (*Segment, error) {
 	if !seg.ignoreName {
 		name = "P<" + seg.Name + ">"
 	}
-	expr, err := regexp.Compile("(?" + name + seg.rule + ")" + seg.Suffix)
+	expr, err := regexp.Compile("(?" + name + seg.rule + ")" + regexp.QuoteMeta(seg.Suffix))
 	if err != nil {
 		return nil, err
 	}
